@@ -563,21 +563,23 @@ func (c *IPAMController) onBlockUpdated(kvp model.KVPair) {
 	if b.Affinity != nil {
 		if after, ok := strings.CutPrefix(*b.Affinity, "host:"); ok {
 			n = after
-			c.nodesByBlock[blockCIDR] = n
-			if _, ok := c.blocksByNode[n]; !ok {
-				c.blocksByNode[n] = map[string]bool{}
-			}
-			c.blocksByNode[n][blockCIDR] = true
 		}
-	} else {
-		// Affinity may have been removed.
-		if n, ok := c.nodesByBlock[blockCIDR]; ok {
-			delete(c.nodesByBlock, blockCIDR)
-			delete(c.blocksByNode[n], blockCIDR)
-			if len(c.blocksByNode[n]) == 0 {
-				delete(c.blocksByNode, n)
-			}
+	}
+	if old, ok := c.nodesByBlock[blockCIDR]; ok && old != n {
+		// Affinity may have been removed, or moved to another node. Either way the block no
+		// longer counts towards the node it used to be affine to.
+		delete(c.nodesByBlock, blockCIDR)
+		delete(c.blocksByNode[old], blockCIDR)
+		if len(c.blocksByNode[old]) == 0 {
+			delete(c.blocksByNode, old)
 		}
+	}
+	if n != "" {
+		c.nodesByBlock[blockCIDR] = n
+		if _, ok := c.blocksByNode[n]; !ok {
+			c.blocksByNode[n] = map[string]bool{}
+		}
+		c.blocksByNode[n][blockCIDR] = true
 	}
 
 	// Update allocations contributed from this block.
